@@ -108,6 +108,7 @@ static void reserve_case(const char *name, long k, long r) {
     long cap0 = static_cast<long>(v.capacity());
     uint64_t req0 = aledger().requests;
     feature(5);
+    try {
     v.reserve(static_cast<ST>(r));
     if (static_cast<long>(v.capacity()) < r) violation(P18, "reserve(%ld): capacity() is %ld", r, static_cast<long>(v.capacity()));
     if (alloc_on_ledger<typename V::allocator_type>::value) {
@@ -128,6 +129,10 @@ static void reserve_case(const char *name, long k, long r) {
         violation(P18, "shrink_to_fit with size %ld (N=%ld) keeps %u heap block(s)", size, N, aledger().outstanding);
     }
     if (static_cast<long>(v.size()) != k) violation(P18, "size changed");
+    } catch (const std::exception &e) {
+      violation(P18, "reserve(%ld) / shrink_to_fit with %ld elements threw '%s'", r, k, e.what());
+      new (&v) V();
+    }
   }
   if (!failed() && (cells().live != 0 || aledger().outstanding != 0)) violation(P18 | P02, "leak");
   enum_end(k > 0 && r > k);
@@ -300,5 +305,7 @@ int main(int argc, char **argv) {
   run_config<amc::vector<int32_t, ARe<int32_t>, uint8_t> >("vector<int,ARe,u8>");
   run_config<amc::SmallVector<TR, 2, AStd<TR>, int8_t> >("SmallVector<TR,2,AStd,i8>");
   run_config<amc::vector<TR, amc::allocator<TR>, uint32_t> >("vector<TR,amc::allocator,u32>");
+  run_config<amc::SmallVector<CO, 4, AStd<CO>, uint32_t> >("SmallVector<CO(copy-only),4,AStd,u32>");
+  run_config<amc::SmallVector<int32_t, 3, amc::allocator<int32_t>, uint32_t> >("SmallVector<int,3,amc::allocator,u32>");
   return enum_finish(&feat, "");
 }
